@@ -369,6 +369,38 @@ func runC05(e *Env) error {
 			}
 		}
 	}
+	// (a5) one render with more distinct attribute names on one struct type than the attribute cache holds (eviction runs
+	// inside the lookup), on a value, a pointer and a map
+	for _, v := range []any{zStruct{Name: "N"}, &zStruct{Name: "P"}, map[string]interface{}{"Name": "M"}} {
+		var sb strings.Builder
+		sb.WriteString("{{ rec.Name }}")
+		for i := 0; i < 1300; i++ {
+			fmt.Fprintf(&sb, "{{ rec.zzAttr%d }}", i)
+		}
+		sb.WriteString("{{ rec.Name }}")
+		src := sb.String()
+		breadcrumb("many-attributes", map[string]any{"type": fmt.Sprintf("%T", v), "names": 1300})
+		res := guardedTimeout(8*time.Second, func() (string, error) {
+			eng := twig.New()
+			if err := eng.RegisterString("main", src); err != nil {
+				return "", err
+			}
+			out, err := eng.Render("main", map[string]interface{}{"rec": v})
+			if err == nil {
+				out2, err2 := eng.Render("main", map[string]interface{}{"rec": v})
+				if err2 != nil || out2 != out {
+					return "", fmt.Errorf("ENGINE-UNUSABLE: second render %q %v, first %q", truncate(out2, 40), err2, truncate(out, 40))
+				}
+			}
+			return out, err
+		})
+		r.Seen(fmt.Sprintf("many-attributes:%T", v), true)
+		if res.Class == "panic" || res.Class == "timeout" || (res.Err != nil && strings.Contains(res.Err.Error(), "ENGINE-UNUSABLE")) {
+			report("panic-or-hang-value", fmt.Sprintf("a template reading 1300 distinct attribute names of a %T: %s %v %s", v, res.Class, res.Err, truncate(res.Panic, 200)),
+				map[string]any{"kind": "many-attributes", "type": fmt.Sprintf("%T", v), "class": res.Class, "panic": res.Panic})
+			return nil
+		}
+	}
 	// (b) zoo
 	zoo := zooValues()
 	names := sortedKeys(zoo)
